@@ -443,10 +443,9 @@ func (g *Gen) proveLemmasAsFunc(names []string, dir string, timeout time.Duratio
 			o.Backend = strings.Join(r.Backend, ",")
 			o.Output = fmt.Sprintf("unsat (%d/%d queries)", r.Proved, r.Queries)
 		case "definitional":
-			// the defining equation of an uninterpreted spec function: nothing to prove (listed as an assumption-free definition)
-			o.Status = "discharged"
-			o.Backend = "definition"
-			o.Output = "defining equation of an uninterpreted spec function"
+			// the defining equation of an uninterpreted spec function: an axiom, not an obligation — reported under assumptions
+			fr.Assumptions = append(fr.Assumptions, "definitional lemma "+names[i]+": the defining equation of an uninterpreted spec function (axiom; non-recursive, or tail-recursive and therefore satisfiable): "+r.Text)
+			continue
 		default:
 			o.Status = "failed"
 			o.Output = "unproved: " + strings.Join(r.Failed, "; ")
